@@ -6,6 +6,7 @@ import (
 	"sort"
 	"strings"
 	"time"
+	"verifharness/internal/pool"
 
 	"verifharness/internal/proto"
 	"verifharness/internal/tlc"
@@ -318,7 +319,7 @@ func checkC15(c *Ctx) {
 	c.Rep.Assumptions = []string{
 		"an alias cycle denotes no type (no members)",
 		"when several reachable classes declare the shared field, any of them is an acceptable definition target",
-		"members added by assignment through a variable of the class (documented extension) are not generated yet",
+		"members added by assignment through the class variable (documented extension) are checked by one hand-written workspace (plain local, global, member of a global table, inherited), not generated",
 	}
 	cfg := fmt.Sprintf("CONSTANTS\n  Classes = {\"KA\",\"KB\",\"KC\"}\n  Level = %q\nINIT Init\nNEXT Next\nINVARIANTS MembersMonotone SelfMember CycleSafe DeleteShrinks Emit\nCHECK_DEADLOCK FALSE\n", c.Tier)
 	if c.Replay != "" {
@@ -338,8 +339,65 @@ func checkC15(c *Ctx) {
 		return
 	}
 	c.Rep.Exhaustive = true
+	c15Assigned(c, p)
 	c.poolStats(p)
 	if surveyMode {
 		sv.dump()
 	}
+}
+
+// c15Assigned: the documented extension of the member set -- members assigned through the variable that follows the
+// ---@class line, in the declaring file -- for a class declared on a plain local, on a global, and on a member of a
+// global table (a namespace), and inherited by a child class.
+func c15Assigned(c *Ctx, p *pool.Pool) {
+	types := "UI = {}\n---@class Button\n---@field text string\nUI.Button = {}\nUI.Button.width = 10\nfunction UI.Button.click() end\n\n" +
+		"---@class Plain\n---@field pf number\nlocal PlainV = {}\nPlainV.extra = 1\nfunction PlainV.run() end\n\n" +
+		"---@class Glob\n---@field gf number\nGlobV = {}\nGlobV.more = 2\n\n---@class Panel : Button\n---@field pad number\n\nprint(PlainV)\n"
+	comp := "---@type Button\nlocal wb = {}\n---@type Plain\nlocal wp = {}\n---@type Glob\nlocal wg = {}\n---@type Panel\nlocal wn = {}\nprint(wb, wp, wg, wn)\n"
+	want := map[string][]string{"wb": {"text", "width", "click"}, "wp": {"pf", "extra", "run"}, "wg": {"gf", "more"}, "wn": {"pad", "text", "width", "click"}}
+	vars := []string{"wb", "wp", "wg", "wn"}
+	pc := &proto.Case{ID: 1, Files: map[string]string{"types.lua": types, "comp.lua": comp}, Init: json.RawMessage(allOnLocal)}
+	pc.Steps = append(pc.Steps, openStep("comp.lua", comp))
+	nl := strings.Count(comp, "\n")
+	prev := 0
+	var at []int
+	for i, v := range vars {
+		typed := v + "."
+		pc.Steps = append(pc.Steps, changeStep("comp.lua", i+2, nl, 0, nl, prev, typed))
+		prev = len(typed)
+		pc.Steps = append(pc.Steps, proto.Step{M: "textDocument/completion",
+			P: json.RawMessage(fmt.Sprintf(`{"textDocument":{"uri":"file://$ROOT/comp.lua"},"position":{"line":%d,"character":%d},"context":{"triggerKind":2,"triggerCharacter":"."}}`, nl, len(typed)))})
+		at = append(at, len(pc.Steps)-1)
+	}
+	raw, _ := json.Marshal(map[string]interface{}{"fam": "assigned-members"})
+	p.RunSlice([][]*proto.Case{{pc}}, func(_ *proto.Case, res *proto.Result) {
+		c.Rep.Eval("assigned-members")
+		if res.Crash != "" || res.Hang {
+			c.Rep.Violation(raw, fmt.Sprintf("members assigned through the class variable: server died or hung (crash=%q)", res.Crash))
+			return
+		}
+		var prob []string
+		for i, v := range vars {
+			labels, _ := compLabels(res.Steps[at[i]].Reply)
+			got := map[string]bool{}
+			for _, l := range labels {
+				got[l] = true
+			}
+			for _, w := range want[v] {
+				if !got[w] {
+					prob = append(prob, fmt.Sprintf("%s. misses %s", v, w))
+				}
+			}
+		}
+		if len(prob) == 0 {
+			return
+		}
+		desc := fmt.Sprintf("members declared by ---@field and assigned through the class variable in the declaring file: %s\n-- types.lua\n%s", strings.Join(prob, "; "), types)
+		if surveyMode {
+			sv.add("assigned-members", desc)
+			return
+		}
+		c.Rep.Violation(raw, desc)
+	})
+	c.Rep.Traces++
 }
